@@ -207,7 +207,12 @@ def derived(ctx):
                 def kk(sp): return (sp.fn,) + tuple(('S', rep.get(a_.name, a_.name)) if isinstance(a_, SentV) else a_ for a_ in sp.args) if isinstance(sp, Spec) else sp
                 return frozenset(kk(p) for p in pr.value.parts) == frozenset(kk(Spec(attr, x)) for x in s.operands)
             ok = all(oks(pr, s) for pr, s, a in paths) and len(paths) >= 1
-            ctx.add(enum_ob(name, ok, where=fi.where, clause=f'{attr}(Oper(o, s0, s1)) = {attr}(s0) ∪ {attr}(s1)', cex=dict(got=[repr(getattr(pr.value, "parts", pr.value)) for pr, s, a in paths])))
+            if ok or not paths or any(pr.kind != 'return' or not isinstance(pr.value, SetE) for pr, s, a in paths):
+                ctx.add(enum_ob(name, ok, where=fi.where, clause=f'{attr}(Oper(o, s0, s1)) = {attr}(s0) ∪ {attr}(s1)', cex=dict(got=[repr(getattr(pr.value, "parts", pr.value)) for pr, s, a in paths])))
+            else:
+                # the body decides by emptiness / overlap of the operands' sets: compare as z3 sets under each path condition
+                goal = z3.And(*[z3.Implies(pr.pc, pr.value.z3() == SetE([Spec(attr, x) for x in s.operands]).z3()) for pr, s, a in paths])
+                ctx.add(Obligation(name, goal, where=fi.where, meta=dict(clause=f'{attr}(Oper(o, s0, s1)) = {attr}(s0) ∪ {attr}(s1) on every path (sets compared in z3)', paths=len(paths))))
         except Outside as e:
             ctx.add_result(Result(name, 'unknown', detail=f'outside subset: {e}'))
     for attr, head in (('quantifiers', False), ('operators', True)):
